@@ -723,4 +723,396 @@ theorem Hmap_nonneg [DecidableEq κ₁] (f : κ → κ₁) (t : Tab κ ℝ) (hnn
       (Real.logb_nonpos (by norm_num) hfpos.le hle)
 
 end Entropy
+/-! ## The relation behind the minimal sufficient statistic -/
+
+section Mss
+variable {σ α : Type} [DecidableEq σ] [DecidableEq α] [Field α]
+
+theorem lookupD_of_mem {κ : Type} [DecidableEq κ] {t : Tab κ α} (hnd : (keys t).Nodup) {k : κ}
+    {v : α} (h : (k, v) ∈ t) : lookupD 0 t k = v := by
+  unfold lookupD; rw [(lookup?_eq_some_iff hnd).mpr h]; rfl
+
+/-- On tables listing each key once, `sameLaw` is equality of the functions they tabulate. -/
+theorem sameLaw_iff {a b : Tab (List σ) α} (ha : (keys a).Nodup) (hb : (keys b).Nodup) :
+    sameLaw a b = true ↔ ∀ k, lookupD 0 a k = lookupD 0 b k := by
+  unfold sameLaw
+  simp only [Bool.and_eq_true, List.all_eq_true, decide_eq_true_eq]
+  constructor
+  · rintro ⟨h1, h2⟩ k
+    by_cases hka : k ∈ keys a
+    · obtain ⟨v, hv⟩ := mem_keys.mp hka
+      rw [lookupD_of_mem ha hv]; exact (h1 (k, v) hv).symm
+    · rw [lookupD_of_not_mem 0 hka]
+      by_cases hkb : k ∈ keys b
+      · obtain ⟨v, hv⟩ := mem_keys.mp hkb
+        have := h2 (k, v) hv
+        rw [lookupD_of_not_mem 0 hka] at this
+        rw [lookupD_of_mem hb hv]; exact this
+      · rw [lookupD_of_not_mem 0 hkb]
+  · intro h
+    refine ⟨fun r hr => ?_, fun r hr => ?_⟩
+    · rw [← h r.1]; exact lookupD_of_mem ha hr
+    · rw [h r.1]; exact lookupD_of_mem hb hr
+
+theorem keys_map_val {κ : Type} (l : Tab κ α) (F : κ × α → α) :
+    keys (l.map (fun r => (r.1, F r))) = keys l := by
+  simp [keys, Function.comp_def]
+
+theorem condLawAt_keys_nodup (t : Tab (List σ) α) (rvs about : List Nat) (o : List σ) :
+    (keys (condLawAt t rvs about o)).Nodup := by
+  unfold condLawAt
+  simp only
+  rw [keys_map_val _ (fun r => r.2 / _)]
+  exact keys_pushforward_nodup _ _
+
+theorem lookupD_map_div {κ : Type} [DecidableEq κ] (l : Tab κ α) (c : α) (k : κ) :
+    lookupD 0 (l.map (fun r => (r.1, r.2 / c))) k = lookupD 0 l k / c := by
+  induction l with
+  | nil => simp [lookupD]
+  | cons r l ih =>
+    unfold lookupD at ih ⊢
+    rw [List.map_cons, lookup?_cons, lookup?_cons]
+    by_cases h : r.1 = k
+    · simp [h]
+    · simp only [h, if_false]; exact ih
+
+/-- `P(about = y | rvs = the values in o)`: the conditional probability read off the table. -/
+def condP (t : Tab (List σ) α) (rvs about : List Nat) (o y : List σ) : α :=
+  wtBy (fun k => project about k = y ∧ project rvs k = project rvs o) t
+    / wtBy (fun k => project rvs k = project rvs o) t
+
+/-- The table `condLawAt` tabulates the conditional probabilities. -/
+theorem lookupD_condLawAt (t : Tab (List σ) α) (rvs about : List Nat) (o y : List σ) :
+    lookupD 0 (condLawAt t rvs about o) y = condP t rvs about o y := by
+  unfold condLawAt condP
+  simp only
+  rw [lookupD_map_div, lookupD_pushforward,
+    Cond.wtBy_filter_key (fun k => project about k = y) (fun k => project rvs k = project rvs o) t,
+    Lemmas.Table.lsum_eq_sum]
+  congr 1
+  have := Cond.wtBy_filter_key (fun _ => True) (fun k => project rvs k = project rvs o) t
+  rw [wtBy_true, mass_eq_sum] at this
+  rw [show (List.map (fun x => x.2) (List.filter (fun r => decide (project rvs r.1 = project rvs o)) t))
+      = vals (List.filter (fun r => decide (project rvs r.1 = project rvs o)) t) from rfl, this]
+  apply Cond.wtBy_congr_fun
+  intro k; simp
+
+/-- The relation whose classes `mssClasses` computes. -/
+def mssRel (t : Tab (List σ) α) (rvs about : List Nat) (o o' : List σ) : Bool :=
+  sameLaw (condLawAt t rvs about o) (condLawAt t rvs about o')
+
+theorem mssClasses_eq (t : Tab (List σ) α) (rvs about : List Nat) :
+    mssClasses t rvs about
+      = classesBy (fun o => (keys t).filter (mssRel t rvs about o)) (keys t) := rfl
+
+/-- Two outcomes are related iff they induce the same conditional law of `about`. -/
+theorem mssRel_iff (t : Tab (List σ) α) (rvs about : List Nat) (o o' : List σ) :
+    mssRel t rvs about o o' = true ↔ ∀ y, condP t rvs about o y = condP t rvs about o' y := by
+  unfold mssRel
+  rw [sameLaw_iff (condLawAt_keys_nodup _ _ _ _) (condLawAt_keys_nodup _ _ _ _)]
+  simp only [lookupD_condLawAt]
+
+theorem mss_equivOn (t : Tab (List σ) α) (rvs about : List Nat) (rows : List (List σ)) :
+    EquivOn (mssRel t rvs about) rows := by
+  refine ⟨?_, ?_, ?_⟩
+  · intro o _; rw [mssRel_iff]; intro y; rfl
+  · intro o _ o' _ h; rw [mssRel_iff] at h ⊢; exact fun y => (h y).symm
+  · intro o _ o' _ o'' _ h h'; rw [mssRel_iff] at h h' ⊢; exact fun y => (h y).trans (h' y)
+
+/-- The relation looks at an outcome only through its `rvs`-values. -/
+theorem mssRel_of_project_eq (t : Tab (List σ) α) (rvs about : List Nat) {o o' : List σ}
+    (h : project rvs o = project rvs o') : mssRel t rvs about o o' = true := by
+  rw [mssRel_iff]
+  intro y
+  unfold condP
+  rw [h]
+
+end Mss
+/-! ## Sufficiency: a statistic whose cells have a common conditional law keeps the information -/
+
+section Suff
+open Dit.Lemmas.InfoReal Finset
+
+variable {ι : Type} [Fintype ι] {β₁ β₂ β₃ : Type} [DecidableEq β₁] [DecidableEq β₂]
+  [DecidableEq β₃]
+
+/-- Joint mass `P(x = x_i, y = y_k)`. -/
+noncomputable def pXY (w : ι → ℝ) (x : ι → β₁) (y : ι → β₂) (i k : ι) : ℝ :=
+  ∑ m, if x m = x i ∧ y m = y k then w m else 0
+
+variable {w : ι → ℝ} (hw : ∀ i, 0 ≤ w i) (x : ι → β₁) (y : ι → β₂) (s : ι → β₃)
+  (h1 : ∀ i j, x i = x j → s i = s j)
+  (h2 : ∀ i j, s i = s j → ∀ k, pXY w x y i k / cm w x i = pXY w x y j k / cm w x j)
+
+include hw h1 in
+theorem suff_term (i k l : ι) :
+    (if s l = s i ∧ y l = y k then w l else 0)
+      = ∑ m, (if s m = s i
+          then w m * ((if x l = x m ∧ y l = y k then w l else 0) / cm w x m) else 0) := by
+  by_cases hy : y l = y k
+  · by_cases hs : s l = s i
+    · rw [if_pos ⟨hs, hy⟩]
+      have e : ∀ m ∈ (Finset.univ : Finset ι),
+          (if s m = s i
+            then w m * ((if x l = x m ∧ y l = y k then w l else 0) / cm w x m) else 0)
+          = (if x m = x l then w m else 0) * (w l / cm w x l) := by
+        intro m _
+        by_cases hx : x m = x l
+        · have hsm : s m = s i := (h1 m l hx).trans hs
+          rw [if_pos hsm, if_pos ⟨hx.symm, hy⟩, if_pos hx, cm_congr_cls x hx]
+        · have hin : ¬(x l = x m ∧ y l = y k) := fun h => hx h.1.symm
+          rw [if_neg hx, if_neg hin]
+          split <;> simp
+      rw [Finset.sum_congr rfl e, ← Finset.sum_mul]
+      change w l = cm w x l * (w l / cm w x l)
+      by_cases h0 : cm w x l = 0
+      · have : w l = 0 := le_antisymm (h0 ▸ le_cm hw x l) (hw l)
+        rw [this]; simp
+      · field_simp
+    · rw [if_neg (fun h => hs h.1)]
+      symm
+      apply Finset.sum_eq_zero
+      intro m _
+      by_cases hsm : s m = s i
+      · rw [if_pos hsm, if_neg, zero_div, mul_zero]
+        rintro ⟨hx, _⟩
+        exact hs ((h1 l m hx).trans hsm)
+      · rw [if_neg hsm]
+  · rw [if_neg (fun h => hy h.2)]
+    symm
+    apply Finset.sum_eq_zero
+    intro m _
+    rw [if_neg (fun h : x l = x m ∧ y l = y k => hy h.2)]
+    split <;> simp
+
+include hw h1 h2 in
+/-- In a cell of `s` all `x` have the same `P(y | x)`, hence `P(s, y) = P(y | x) · P(s)`. -/
+theorem suff_mass (i k : ι) :
+    (∑ l, if s l = s i ∧ y l = y k then w l else 0)
+      = pXY w x y i k / cm w x i * cm w s i := by
+  rw [Finset.sum_congr rfl (fun l _ => suff_term hw x y s h1 i k l), Finset.sum_comm]
+  have e : ∀ m ∈ (Finset.univ : Finset ι),
+      (∑ l, if s m = s i
+          then w m * ((if x l = x m ∧ y l = y k then w l else 0) / cm w x m) else 0)
+        = (if s m = s i then w m else 0) * (pXY w x y i k / cm w x i) := by
+    intro m _
+    by_cases hsm : s m = s i
+    · simp only [if_pos hsm]
+      rw [← Finset.mul_sum, ← Finset.sum_div, ← h2 m i hsm k]
+      rfl
+    · simp [if_neg hsm]
+  rw [Finset.sum_congr rfl e, ← Finset.sum_mul, mul_comm]
+  rfl
+
+omit [DecidableEq β₃] in
+theorem cm_pair (w : ι → ℝ) (x : ι → β₁) (y : ι → β₂) (i : ι) :
+    cm w (fun m => (x m, y m)) i = pXY w x y i i := by
+  unfold cm pXY
+  apply Finset.sum_congr rfl
+  intro m _
+  simp only [Prod.mk.injEq]
+
+include hw h1 h2 in
+/-- **Sufficiency** in class-mass form: `Σ w (log P(x) − log P(x,y) − log P(s) + log P(s,y)) = 0`. -/
+theorem suff_log :
+    ∑ i, w i * (Real.log (cm w x i) - Real.log (cm w (fun m => (x m, y m)) i)
+        - Real.log (cm w s i) + Real.log (cm w (fun m => (s m, y m)) i)) = 0 := by
+  apply Finset.sum_eq_zero
+  intro i _
+  rcases (hw i).eq_or_lt with h0 | hpos
+  · rw [← h0, zero_mul]
+  · have px := hpos.trans_le (le_cm hw x i)
+    have pxy := hpos.trans_le (le_cm hw (fun m => (x m, y m)) i)
+    have ps := hpos.trans_le (le_cm hw s i)
+    have e : cm w (fun m => (s m, y m)) i
+        = cm w (fun m => (x m, y m)) i / cm w x i * cm w s i := by
+      rw [cm_pair w s y i, cm_pair w x y i]
+      exact suff_mass hw x y s h1 h2 i i
+    rw [e, Real.log_mul (div_pos pxy px).ne' ps.ne', Real.log_div pxy.ne' px.ne']
+    ring
+
+end Suff
+
+section SuffTab
+open Dit.Lemmas.InfoReal
+
+variable {κ κ₁ κ₂ κ₃ : Type} [DecidableEq κ₁] [DecidableEq κ₂] [DecidableEq κ₃]
+
+theorem wtBy_eq_fin (p : κ → Prop) [DecidablePred p] (t : Tab κ ℝ) :
+    wtBy p t = ∑ j : Fin t.length, if p t[j.1].1 then t[j.1].2 else 0 := by
+  unfold wtBy
+  exact (Fin.sum_univ_fun_getElem t (fun r => if p r.1 then r.2 else 0)).symm
+
+/-- **A sufficient statistic keeps the mutual information** (`H(S) − H(S,Y) = H(X) − H(X,Y)`):
+`S` is a function of `X`, and outcomes with the same `S` have the same conditional law of `Y`
+given their `X`. -/
+theorem Hmap_sufficient (X : κ → κ₁) (Y : κ → κ₂) (S : κ → κ₃) (t : Tab κ ℝ)
+    (hnn : ∀ r ∈ t, 0 ≤ r.2)
+    (h1 : ∀ k ∈ keys t, ∀ k' ∈ keys t, X k = X k' → S k = S k')
+    (h2 : ∀ k ∈ keys t, ∀ k' ∈ keys t, S k = S k' → ∀ yv,
+      wtBy (fun a => Y a = yv ∧ X a = X k) t / wtBy (fun a => X a = X k) t
+        = wtBy (fun a => Y a = yv ∧ X a = X k') t / wtBy (fun a => X a = X k') t) :
+    Hmap S t - Hmap (fun k => (S k, Y k)) t = Hmap X t - Hmap (fun k => (X k, Y k)) t := by
+  have hw : ∀ i : Fin t.length, 0 ≤ wOf t i := fun i => hnn _ (List.getElem_mem i.2)
+  have hcm : ∀ i : Fin t.length,
+      wtBy (fun a => X a = X t[i.1].1) t = cm (wOf t) (atRow X t) i := by
+    intro i; rw [wtBy_eq_fin]; rfl
+  have hp : ∀ i k : Fin t.length,
+      wtBy (fun a => Y a = Y t[k.1].1 ∧ X a = X t[i.1].1) t
+        = pXY (wOf t) (atRow X t) (atRow Y t) i k := by
+    intro i k; rw [wtBy_eq_fin]; unfold pXY
+    apply Finset.sum_congr rfl
+    intro m _
+    by_cases h : Y t[m.1].1 = Y t[k.1].1 ∧ X t[m.1].1 = X t[i.1].1
+    · rw [if_pos h, if_pos ⟨h.2, h.1⟩]; rfl
+    · rw [if_neg h, if_neg (fun h' => h ⟨h'.2, h'.1⟩)]
+  have hlog := suff_log hw (atRow X t) (atRow Y t) (atRow S t)
+    (fun i j e => h1 _ (mem_keys_getElem t i) _ (mem_keys_getElem t j) e)
+    (by
+      intro i j e k
+      have := h2 _ (mem_keys_getElem t i) _ (mem_keys_getElem t j) e (Y t[k.1].1)
+      rw [hp i k, hp j k, hcm i, hcm j] at this
+      exact this)
+  rw [Hmap_fin, Hmap_fin, Hmap_fin, Hmap_fin]
+  have hl : Real.log 2 ≠ 0 := (Real.log_pos (by norm_num)).ne'
+  have hdiv : (∑ i, wOf t i * (Real.log (cm (wOf t) (atRow X t) i)
+        - Real.log (cm (wOf t) (fun m => (atRow X t m, atRow Y t m)) i)
+        - Real.log (cm (wOf t) (atRow S t) i)
+        + Real.log (cm (wOf t) (fun m => (atRow S t m, atRow Y t m)) i))) / Real.log 2 = 0 := by
+    rw [hlog, zero_div]
+  rw [← sub_eq_zero]
+  refine Eq.trans ?_ hdiv
+  rw [Finset.sum_div, neg_sub_neg, neg_sub_neg, ← Finset.sum_sub_distrib,
+    ← Finset.sum_sub_distrib, ← Finset.sum_sub_distrib]
+  apply Finset.sum_congr rfl
+  intro i _
+  simp only [← Real.log_div_log]
+  have a1 : atRow (fun k => (S k, Y k)) t = fun m => (atRow S t m, atRow Y t m) := rfl
+  have a2 : atRow (fun k => (X k, Y k)) t = fun m => (atRow X t m, atRow Y t m) := rfl
+  rw [a1, a2]
+  ring
+
+end SuffTab
+/-! ## The table with an appended label variable -/
+
+section InsertLabel
+open Dit.Lemmas.Constructors Dit.Lemmas.InfoReal
+
+variable {σ : Type} [DecidableEq σ]
+
+/-- Entropies of the marginals of `insert_rvf`'s result are entropies of maps on the old table. -/
+theorem entropyOf_insertRvf (F : List σ → List σ) (index : Option Nat) (t : Tab (List σ) ℝ)
+    (X : List Nat) :
+    entropyOf (Real.logb 2) (insertRvf F index t) X
+      = Hmap (fun o => project X (insOut F index o)) t := by
+  unfold entropyOf Hmap
+  rw [insertRvf_eq_map, pushforward_map_key]
+
+theorem project_append_of_lt {U : List Nat} {o : List σ} (h : ∀ i ∈ U, i < o.length)
+    (z : List σ) : project U (o ++ z) = project U o := by
+  unfold project
+  apply List.filterMap_congr
+  intro i hi
+  exact List.getElem?_append_left (h i hi)
+
+theorem project_new (o : List σ) (s : σ) : project [o.length] (o ++ [s]) = [s] := by
+  simp [project]
+
+theorem project_append_new {U : List Nat} {o : List σ} (h : ∀ i ∈ U, i < o.length) (s : σ) :
+    project (U ++ [o.length]) (o ++ [s]) = project U o ++ [s] := by
+  rw [project_append, project_append_of_lt h, project_new]
+
+variable (ℓ : List σ → σ) (n : Nat) (t : Tab (List σ) ℝ) (hn : ∀ k ∈ keys t, k.length = n)
+include hn
+
+/-- The appended variable, read at position `n`, has the entropy of the labelling. -/
+theorem entropyOf_new :
+    entropyOf (Real.logb 2) (insertRvf (fun o => [ℓ o]) none t) [n] = Hmap ℓ t := by
+  rw [entropyOf_insertRvf]
+  apply Hmap_equiv
+  intro k hk k' hk'
+  show project [n] (k ++ [ℓ k]) = project [n] (k' ++ [ℓ k']) ↔ _
+  rw [← hn k hk, project_new, hn k hk, ← hn k' hk', project_new]
+  simp
+
+/-- Old variables keep their entropies. -/
+theorem entropyOf_old (U : List Nat) (hU : ∀ i ∈ U, i < n) :
+    entropyOf (Real.logb 2) (insertRvf (fun o => [ℓ o]) none t) U
+      = entropyOf (Real.logb 2) t U := by
+  rw [entropyOf_insertRvf, entropyOf_eq_Hmap]
+  apply Hmap_equiv
+  intro k hk k' hk'
+  show project U (k ++ [ℓ k]) = project U (k' ++ [ℓ k']) ↔ _
+  rw [project_append_of_lt (by rw [hn k hk]; exact hU),
+    project_append_of_lt (by rw [hn k' hk']; exact hU)]
+
+/-- Old variables together with the new one: the entropy of the pair (values on `U`, label). -/
+theorem entropyOf_old_new (U : List Nat) (hU : ∀ i ∈ U, i < n) :
+    entropyOf (Real.logb 2) (insertRvf (fun o => [ℓ o]) none t) (U ++ [n])
+      = Hmap (fun o => (ℓ o, project U o)) t := by
+  rw [entropyOf_insertRvf]
+  apply Hmap_equiv
+  intro k hk k' hk'
+  show project (U ++ [n]) (k ++ [ℓ k]) = project (U ++ [n]) (k' ++ [ℓ k']) ↔ _
+  have e1 := project_append_new (U := U) (o := k) (by rw [hn k hk]; exact hU) (ℓ k)
+  have e2 := project_append_new (U := U) (o := k') (by rw [hn k' hk']; exact hU) (ℓ k')
+  rw [hn k hk] at e1; rw [hn k' hk'] at e2
+  rw [e1, e2]
+  have hlen : (project U k).length = (project U k').length := by
+    rw [length_project (by rw [hn k hk]; exact hU), length_project (by rw [hn k' hk']; exact hU)]
+  constructor
+  · intro e
+    obtain ⟨a, b⟩ := List.append_inj e hlen
+    rw [a, List.singleton_inj.mp b]
+  · intro e
+    obtain ⟨a, b⟩ := Prod.mk.inj e
+    rw [a, b]
+
+end InsertLabel
+/-! ## Dual total correlation and a variable rendering the groups conditionally independent -/
+
+section Chain
+open Dit.Lemmas.InfoAlg
+
+variable {R : Type} [CommRing R] [LinearOrder R] [IsStrictOrderedRing R] {H : VSet → R}
+
+theorem vunion_nil_right (a : VSet) : vunion a [] = vnorm a := by
+  unfold vunion; rw [List.append_nil]
+
+/-- If every group is independent of the other groups given `W`
+(`H(Xᵢ | X₋ᵢ, W) = H(Xᵢ | W)`), the dual total correlation is at most `H(W | ∅)`:
+`B = H(X) − Σ H(Xᵢ|X₋ᵢ) ≤ H(X) − Σ H(Xᵢ|W) ≤ H(X) − H(X|W) = I(X:W) ≤ H(W)`. -/
+theorem dtc_le_of_cond_indep (h : Submod H) (groups : List VSet) (W : VSet)
+    (hCI : ∀ g ∈ groups,
+      Hc H g (vunion (vdiff (vunions groups) (vnorm g)) W) = Hc H g W) :
+    Hc H (vunions groups) []
+        - (groups.map (fun g => Hc H g (vunion (vdiff (vunions groups) (vnorm g)) []))).sum
+      ≤ Hc H W [] := by
+  have s1 : (groups.map (fun g => Hc H g W)).sum
+      ≤ (groups.map (fun g => Hc H g (vunion (vdiff (vunions groups) (vnorm g)) []))).sum := by
+    apply List.sum_le_sum
+    intro g hg
+    rw [← hCI g hg]
+    apply Hc_anti h
+    intro x hx
+    rw [mem_vunion] at hx ⊢
+    rcases hx with hx | hx
+    · exact Or.inl hx
+    · simp at hx
+  have s2 := tc_sum_nonneg h groups W
+  have s3 := Hc_nonneg h W (vunions groups)
+  have e : vunion W (vunions groups) = vunion (vunions groups) W :=
+    vunion_congr (by intro x; tauto)
+  have a1 : Hc H (vunions groups) [] = H (vnorm (vunions groups)) - H (vnorm []) := by
+    unfold Hc; rw [vunion_nil_right]
+  have a2 : Hc H W [] = H (vnorm W) - H (vnorm []) := by
+    unfold Hc; rw [vunion_nil_right]
+  have a3 : Hc H (vunions groups) W = H (vunion (vunions groups) W) - H (vnorm W) := rfl
+  have a4 : Hc H W (vunions groups)
+      = H (vunion (vunions groups) W) - H (vnorm (vunions groups)) := by
+    unfold Hc; rw [e]
+  rw [a1, a2]; rw [a3] at s2; rw [a4] at s3
+  linarith
+
+end Chain
 end Dit.Lemmas.Meet
